@@ -1,4 +1,5 @@
 import Cdecao.Proofs.NodeEng2
+import Cdecao.Proofs.SpecExec
 /-! # C08 (score half) — the reported score is the documented score of the reported assignment -/
 namespace Props
 open N2
@@ -12,5 +13,17 @@ theorem C08_score (I : Inst) (R : RoomFns) (hI : InstOK2 I) (top T : Nat) :
       Eng3.Reach rootNode top T c → ∀ al, c.best = some al →
       ∃ a : Nat → Option Nat, al = (List.range I.P).map a ∧ G.HardOK I a ∧ c.bestScore = G.scoreOf I a :=
   C01_C08_engine I R hI top T
+
+/-- the same with the decidable premise `validb` and the executable score `scoreOfL` (the list sum
+    the driver evaluates on every assignment the real code returns) -/
+theorem C08_score_valid (I : Inst) (R : RoomFns) (hv : validb I = true) (top T : Nat) :
+    letI := solverOf I R
+    ∀ c : Eng3.Cfg Node (List (Option Nat)),
+      Eng3.Reach rootNode top T c → ∀ al, c.best = some al →
+      ∃ a : Nat → Option Nat, al = (List.range I.P).map a ∧ G.hardOKb I a = true ∧ c.bestScore = G.scoreOfL I a := by
+  letI := solverOf I R
+  intro c hr al hal
+  obtain ⟨a, h1, h2, h3⟩ := C01_C08_engine I R (validb_sound I hv).1 top T c hr al hal
+  exact ⟨a, h1, (G.hardOKb_iff I a).2 h2, by rw [G.scoreOfL_eq]; exact h3⟩
 
 end Props
